@@ -26,6 +26,8 @@ type fsNode struct {
 	Data   []byte
 	Target string
 	Kids   map[string]*fsNode
+	Mode   os.FileMode // extra mode bits (setuid / setgid / sticky) for files and directories
+	LinkTo string      // regular file materialised as a hard link to the sibling of that name (same content)
 }
 
 var fsNamePool = []string{"a", "b", "c d", "é", "00", "A1x", ".hidden", "x.txt", "漢字", "-", "%41", "\xff\xfe", "a\nb", " ", "0A", "FF", "~", "..."}
@@ -78,7 +80,33 @@ func genFS(t *rapid.T, depth int, allowFifo bool) *fsNode {
 		for _, name := range genFSNames(t, 6) {
 			d.Kids[name] = genFS(t, depth-1, allowFifo)
 		}
+		decorateDir(t, d)
 		return d
+	}
+}
+
+// decorateDir adds what a plain tree of fresh files lacks: hard links between siblings and special mode bits.
+func decorateDir(t *rapid.T, d *fsNode) {
+	if rapid.IntRange(0, 5).Draw(t, "modebits") == 0 {
+		d.Mode = rapid.SampledFrom([]os.FileMode{os.ModeSticky, os.ModeSetgid, os.ModeSticky | os.ModeSetgid}).Draw(t, "dirmode")
+	}
+	var files []string
+	for name, k := range d.Kids {
+		if k.Kind == fsFile && k.LinkTo == "" {
+			files = append(files, name)
+		}
+	}
+	sort.Strings(files)
+	if len(files) > 0 && rapid.IntRange(0, 3).Draw(t, "hardlink") == 0 {
+		src := files[rapid.IntRange(0, len(files)-1).Draw(t, "linksrc")]
+		name := "hardlink-to-" + src
+		if len(name) <= 255 {
+			d.Kids[name] = &fsNode{Kind: fsFile, Data: d.Kids[src].Data, LinkTo: src}
+		}
+	}
+	if len(files) > 0 && rapid.IntRange(0, 5).Draw(t, "filemode") == 0 {
+		f := d.Kids[files[rapid.IntRange(0, len(files)-1).Draw(t, "modefile")]]
+		f.Mode = rapid.SampledFrom([]os.FileMode{os.ModeSetuid, os.ModeSetgid, os.ModeSticky}).Draw(t, "fmode")
 	}
 }
 
@@ -87,6 +115,7 @@ func genFSRootDir(t *rapid.T, depth int, allowFifo bool) *fsNode {
 	for _, name := range genFSNames(t, 7) {
 		d.Kids[name] = genFS(t, depth-1, allowFifo)
 	}
+	decorateDir(t, d)
 	return d
 }
 
@@ -136,7 +165,16 @@ func (n *fsNode) hasEmptyDir() bool {
 func (n *fsNode) materialise(p string) error {
 	switch n.Kind {
 	case fsFile:
-		return os.WriteFile(p, n.Data, 0o644)
+		if n.LinkTo != "" {
+			return os.Link(filepath.Join(filepath.Dir(p), n.LinkTo), p)
+		}
+		if err := os.WriteFile(p, n.Data, 0o644); err != nil {
+			return err
+		}
+		if n.Mode != 0 {
+			return os.Chmod(p, 0o755|n.Mode)
+		}
+		return nil
 	case fsSymlink:
 		return os.Symlink(n.Target, p)
 	case fsFifo:
@@ -150,9 +188,20 @@ func (n *fsNode) materialise(p string) error {
 		if err := os.Mkdir(p, 0o755); err != nil {
 			return err
 		}
-		for name, c := range n.Kids {
-			if err := c.materialise(filepath.Join(p, name)); err != nil {
-				return fmt.Errorf("%q: %w", name, err)
+		// hard links after their sources
+		for pass := 0; pass < 2; pass++ {
+			for name, c := range n.Kids {
+				if (c.LinkTo != "") != (pass == 1) {
+					continue
+				}
+				if err := c.materialise(filepath.Join(p, name)); err != nil {
+					return fmt.Errorf("%q: %w", name, err)
+				}
+			}
+		}
+		if n.Mode != 0 {
+			if err := os.Chmod(p, 0o755|n.Mode); err != nil {
+				return err
 			}
 		}
 	}
